@@ -1,4 +1,208 @@
-(* placeholder until C15/Proofs*.v land: nothing is claimed proved yet *)
-From V Require Import C15.Glue.
-Theorem c15_placeholder : True. Proof. exact I. Qed.
-Print Assumptions c15_placeholder.
+(* C15 - Baggage round-trips through its header; composite propagators apply every part.
+   Property theorems about the Gallina model coq/C15/Model.v (tied to the C++ by ./check C15).
+   Only statements here; proofs are in coq/C15/Proofs*.v. *)
+From V Require Import C15.Glue C15.ProofsBase C15.ProofsOps C15.ProofsHeader C15.ProofsRoundtrip
+                      C15.ProofsComposite C15.ProofsSpec C15.ProofsMain.
+
+(* -- "characters outside the token set are percent-encoded and decoded back":
+      UrlDecode inverts UrlEncode on EVERY byte string (not only printable ones) *)
+Theorem decode_encode : forall s : bytes, url_decode (url_encode s) = Some s.
+Proof. exact url_decode_encode. Qed.
+Print Assumptions decode_encode.
+
+(* the model's codec is the declarative one of the SPEC *)
+Theorem codec_refines_spec : forall s : bytes, sp_decode s = url_decode s /\ sp_encode s = url_encode s.
+Proof. exact (fun s => conj (sp_decode_eq s) (sp_encode_eq s)). Qed.
+Print Assumptions codec_refines_spec.
+
+(* -- every baggage built through Set/Delete (any arguments, any history) has only valid
+      entries (non-empty printable key, printable value) and no duplicate key *)
+Theorem built_by_set_valid :
+  forall b, built_by_set b ->
+  bag_wf b /\ forallb kv_valid (bg_entries b) = true /\ NoDup (map fst (bg_entries b)).
+Proof. exact built_by_set_invariant. Qed.
+Print Assumptions built_by_set_valid.
+
+(* -- the header round trip, under exactly these hypotheses: the baggage was built through Set
+      (hence valid keys/values); in every value the part from the first ';' on contains no ','
+      and does not end in white space, and the encoded member is at most kMaxKeyValueSize bytes
+      (rt_extra); at most kMaxKeyValuePairs entries; header at most kMaxSize bytes.
+      The entries come back the same, in the same order. *)
+Theorem baggage_roundtrip :
+  forall b, built_by_set b ->
+  forallb rt_extra (bg_entries b) = true ->
+  length (bg_entries b) <= kMaxKeyValuePairsBaggage ->
+  length (bg_to_header b) <= kMaxSizeBaggage ->
+  bg_entries (bg_from_header (bg_to_header b)) = bg_entries b.
+Proof. exact baggage_roundtrip_built. Qed.
+Print Assumptions baggage_roundtrip.
+
+(* the same for any entry list that meets rt_ok (validity + the hypotheses above), however built *)
+Theorem baggage_roundtrip_any :
+  forall b, rt_ok (bg_entries b) = true -> bg_entries (bg_from_header (bg_to_header b)) = bg_entries b.
+Proof. exact model_roundtrip. Qed.
+Print Assumptions baggage_roundtrip_any.
+
+(* ... and through the propagator: Inject into an empty carrier, Extract into any context *)
+Theorem baggage_roundtrip_propagator :
+  forall b ctx ctx0, cx_bag ctx = Some b -> rt_ok (bg_entries b) = true ->
+  let car := baggage_inject ctx [] in
+  let out := baggage_extract car ctx0 in
+  (bg_entries b <> [] ->
+     car = [(h_baggage, bg_to_header b)] /\
+     exists b', out = CxBag b' :: ctx0 /\ bg_entries b' = bg_entries b) /\
+  (bg_entries b = [] -> car = [] /\ out = ctx0).
+Proof. exact propagator_roundtrip. Qed.
+Print Assumptions baggage_roundtrip_propagator.
+
+(* the hypotheses are needed: the two excluded shapes do not come back *)
+Theorem baggage_roundtrip_needs_hypotheses :
+  sp_from_header (sp_to_header [(bs "k", bs "a;b,c")]) = [(bs "k", bs "a;b")] /\
+  sp_from_header (sp_to_header [(bs "k", bs "a;b ")]) = [(bs "k", bs "a;b")].
+Proof. exact (conj roundtrip_needs_no_comma_in_metadata roundtrip_needs_no_trailing_space_in_metadata). Qed.
+Print Assumptions baggage_roundtrip_needs_hypotheses.
+
+(* -- Set replaces an existing key (new entry first, the key occurs exactly once, every other
+      key keeps its value and order); an invalid key or value gives a copy *)
+Theorem set_replaces :
+  forall k v b, bag_wf b -> sp_valid_key k = true -> sp_valid_value v = true ->
+  bg_entries (bg_set k v b) = (k, v) :: remove_key k (bg_entries b) /\
+  bg_get k (bg_set k v b) = Some v /\
+  key_count k (bg_entries (bg_set k v b)) = 1 /\
+  (forall k', bytes_eqb k' k = false -> bg_get k' (bg_set k v b) = bg_get k' b) /\
+  remove_key k (bg_entries (bg_set k v b)) = remove_key k (bg_entries b).
+Proof. exact set_replaces_model. Qed.
+Print Assumptions set_replaces.
+
+Theorem set_invalid_copies :
+  forall k v b, bag_wf b -> sp_valid_key k && sp_valid_value v = false -> bg_entries (bg_set k v b) = bg_entries b.
+Proof. exact set_invalid_copies_model. Qed.
+Print Assumptions set_invalid_copies.
+
+(* -- Delete removes it *)
+Theorem delete_removes :
+  forall k b, bag_wf b ->
+  bg_entries (bg_delete k b) = remove_key k (bg_entries b) /\
+  bg_get k (bg_delete k b) = None /\
+  key_count k (bg_entries (bg_delete k b)) = 0 /\
+  (forall k', bytes_eqb k' k = false -> bg_get k' (bg_delete k b) = bg_get k' b).
+Proof. exact delete_removes_model. Qed.
+Print Assumptions delete_removes.
+
+(* every baggage any operation can produce is well formed (so the two theorems above apply to
+   every reachable object) *)
+Theorem reachable_wf :
+  forall ops st, Forall bag_wf st -> Forall bag_wf (run_ops ops st).
+Proof. exact run_ops_wf. Qed.
+Print Assumptions reachable_wf.
+
+(* -- neither changes the baggage they were called on: in every history of Set/Delete/FromHeader
+      on a store of objects, the objects that exist after a prefix are still the same after any
+      continuation *)
+Theorem set_delete_pure :
+  forall ops1 ops2 st, firstn (length (run_ops ops1 st)) (run_ops (ops1 ++ ops2) st) = run_ops ops1 st.
+Proof. exact store_append_only. Qed.
+Print Assumptions set_delete_pure.
+
+(* -- extraction from arbitrary bytes = the declarative member grammar, for every byte string *)
+Theorem from_header_refines_spec : forall h : bytes, bg_entries (bg_from_header h) = sp_from_header h.
+Proof. exact bg_from_header_entries. Qed.
+Print Assumptions from_header_refines_spec.
+
+(* -- keeps only members whose decoded key and value are valid (soundness), keeps all of them
+      when within the limits (completeness), in header order *)
+Theorem from_header_keeps_only_valid :
+  forall h : bytes,
+  (forall e, In e (bg_entries (bg_from_header h)) ->
+     entry_valid e = true /\ exists seg, In seg (split_on comma h) /\ sp_member seg = Some e) /\
+  (length h <= kMaxSizeBaggage ->
+   length (filter_map sp_member (split_on comma h)) <= kMaxKeyValuePairsBaggage ->
+   forall seg e, In seg (split_on comma h) -> sp_member seg = Some e -> In e (bg_entries (bg_from_header h))) /\
+  (length h <= kMaxSizeBaggage ->
+   exists rest, filter_map sp_member (split_on comma h) = bg_entries (bg_from_header h) ++ rest).
+Proof. exact from_header_keeps_only_valid_model. Qed.
+Print Assumptions from_header_keeps_only_valid.
+
+(* -- honours the 180-member, 4096-byte member and 8192-byte header limits (numbers read from
+      baggage.h into Gen/Consts.v on every run) *)
+Theorem limits_honoured :
+  forall h : bytes,
+  length (bg_entries (bg_from_header h)) <= kMaxKeyValuePairsBaggage /\
+  (kMaxSizeBaggage < length h -> bg_entries (bg_from_header h) = []) /\
+  (forall e, In e (bg_entries (bg_from_header h)) -> length (fst e) + length (snd e) <= kMaxKeyValueSize) /\
+  (forall e, In e (bg_entries (bg_from_header h)) ->
+     exists rk rv, (exists seg, In seg (split_on comma h) /\ cut equals (trim seg) = Some (rk, rv)) /\
+                   length rk + length rv <= kMaxKeyValueSize).
+Proof. exact limits_honoured_model. Qed.
+Print Assumptions limits_honoured.
+
+Theorem limits_are_180_4096_8192 :
+  kMaxKeyValuePairsBaggage = 180 /\ kMaxKeyValueSize = N.to_nat 4096%N /\ kMaxSizeBaggage = N.to_nat 8192%N.
+Proof. exact limits_nonvacuous. Qed.
+Print Assumptions limits_are_180_4096_8192.
+
+(* -- leaves the context untouched when nothing valid remains (and installs the baggage otherwise) *)
+Theorem nothing_valid_leaves_context :
+  forall car ctx,
+  (bg_entries (bg_from_header (car_get h_baggage car)) = [] -> baggage_extract car ctx = ctx) /\
+  (bg_entries (bg_from_header (car_get h_baggage car)) <> [] ->
+     baggage_extract car ctx = CxBag (bg_from_header (car_get h_baggage car)) :: ctx).
+Proof. exact nothing_valid_leaves_context_model. Qed.
+Print Assumptions nothing_valid_leaves_context.
+
+(* -- a composite injects with every configured propagator, in order, on the one carrier
+      (for every list of propagators, whatever they are) *)
+Theorem composite_inject_all :
+  forall ps ctx car,
+  comp_inject ps ctx car = fold_left (fun c p => p_inject p ctx c) ps car /\
+  (forall ps1 p ps2, ps = ps1 ++ p :: ps2 ->
+     comp_inject ps ctx car = comp_inject ps2 ctx (p_inject p ctx (comp_inject ps1 ctx car))).
+Proof.
+  exact (fun ps ctx car => conj (comp_inject_fold ps ctx car)
+           (fun ps1 p ps2 E => eq_ind_r (fun x => comp_inject x ctx car = _) (comp_inject_each ps1 p ps2 ctx car) E)).
+Qed.
+Print Assumptions composite_inject_all.
+
+(* for the built-in parts: what any configured part writes on its own is in the carrier afterwards *)
+Theorem composite_inject_all_builtin_headers :
+  forall ns ctx car n k v,
+  In n ns -> last_write k (writes_of n ctx) = Some v ->
+  car_get k (comp_inject (map prop_of_name ns) ctx car) = v.
+Proof. exact composite_inject_all_builtin. Qed.
+Print Assumptions composite_inject_all_builtin_headers.
+
+(* -- and extracts by threading the context through all of them in order; with no part at all the
+      caller's context is returned *)
+Theorem composite_extract_threads_in_order :
+  forall ps car ctx,
+  comp_extract ps car ctx = fold_left (fun c p => p_extract p car c) ps ctx /\
+  (forall ps1 p ps2, ps = ps1 ++ p :: ps2 ->
+     comp_extract ps car ctx = comp_extract ps2 car (p_extract p car (comp_extract ps1 car ctx))).
+Proof.
+  exact (fun ps car ctx => conj (comp_extract_fold ps car ctx)
+           (fun ps1 p ps2 E => eq_ind_r (fun x => comp_extract x car ctx = _) (comp_extract_each ps1 p ps2 car ctx) E)).
+Qed.
+Print Assumptions composite_extract_threads_in_order.
+
+(* -- the model passes every SPEC checker that ./check runs on the implementation's observations *)
+Theorem model_meets_spec_header :
+  forall h init, spec_hdr_ok (hdr_bytes h) (option_map sp_from_header init) (model_hdr_obs h init) = [].
+Proof. exact model_meets_spec_hdr. Qed.
+Print Assumptions model_meets_spec_header.
+
+Theorem model_meets_spec_operations :
+  forall init ops, spec_ops_ok (init_entries init) ops (model_ops_obs init ops) = [].
+Proof. exact model_meets_spec_ops. Qed.
+Print Assumptions model_meets_spec_operations.
+
+Theorem model_meets_spec_composite :
+  forall ps ctx car,
+  spec_comp_inject_ok (p_inject (composite ps) ctx car) (parts_inject ps ctx car) = [] /\
+  spec_comp_extract_ok (obs_of_ctx ctx (p_extract (composite ps) car ctx)) (obs_of_ctx ctx (parts_extract ps car ctx)) = [].
+Proof. exact (fun ps ctx car => conj (model_meets_spec_comp_inject ps ctx car) (model_meets_spec_comp_extract ps ctx car)). Qed.
+Print Assumptions model_meets_spec_composite.
+
+(* -- the linear-time trim / member list used by this model are C14's trim_ws / members *)
+Theorem members_are_c14_members : forall h, bg_members h = members h /\ forall s, trim s = trim_ws s.
+Proof. exact (fun h => conj (bg_members_eq h) trim_eq). Qed.
+Print Assumptions members_are_c14_members.
